@@ -204,3 +204,57 @@ Proof.
   - constructor; [|constructor; [|constructor]]; unfold region_ok; cbn; (split; [lia|]); (split; [rewrite W64_val; lia|reflexivity]).
   - vm_compute. repeat split.
 Qed.
+
+(* ================================================================== every FIRST accessor of a region, and the region layer
+   (Impl/Dirty.v root_acc / run_xstep, Proofs/C05Root.v).  The chains above start at region.as_volatile_slice().  The
+   crate's other ways to a first accessor - MmapRegion::get_slice(o, n), GuestRegionMmap::get_slice, GuestMemory::get_slice,
+   MmapRegion::get_ref / get_array_ref at a (page-unaligned) offset o - take their bitmap view at slice_at(o). *)
+From VM Require Proofs.C05Root.
+
+(* each such first accessor is the accessor the corresponding derivation from the whole-region slice gives *)
+Theorem C05_root_accessor_is_chain : forall r k, root_acc r k = derive_chain (root r) (root_prefix k).
+Proof. exact C05Root.root_acc_prefix. Qed.
+
+(* the accessor invariant from EVERY root: bitmap base = byte offset in the region, inside the region *)
+Theorem C05_root_bm_base_tracks : forall r k ds a0 a', r_size r < W64 ->
+  root_acc r k = Some a0 -> derive_chain a0 ds = Some a' -> acc_ok r a'.
+Proof. exact C05Root.root_chain_ok. Qed.
+
+(* an extended step (any root kind; guest-memory get_slice; an op on the REGION layer = the same op on the region's
+   whole slice, src/mmap/mod.rs; a copy into the region's own get_slice) is a base step: C05_sound, C05_monotone,
+   C16_precise ... apply to it through [lower] *)
+Theorem C05_xstep_is_step : forall hm rs x, run_xstep hm rs x = run_step hm rs (lower rs x).
+Proof. exact C05Root.run_xstep_lower. Qed.
+
+(* histories of extended steps: what the suite runs (base history of the steps lowered against the initial
+   geometry) is the extended history, and it satisfies the checker *)
+Theorem C05_xhist_is_suite_model : forall hm xs rs, wf rs ->
+  C05Root.run_xhist hm rs xs = run_hist hm rs (map (lower rs) xs).
+Proof. exact C05Root.xhist_is_suite_model. Qed.
+
+Theorem C05_xmodel_ok : forall hm xs rs, wf rs ->
+  ok_hist ok_C05_step (map geom_of rs) (view rs) (map kind_of (map (lower rs) xs)) (C05Root.run_xhist hm rs xs) = true.
+Proof. exact C05Root.C05_xmodel_ok_lemma. Qed.
+
+Example C05_root_nonvacuous :
+  let r := {| r_start := 4096; r_size := 8192; r_ps := 4096; r_tracked := true; r_dirty := [false; false] |} in
+  wf [r] /\
+  (* 16 bytes through gm.get_slice(GuestAddress(4096 + 4088), 16): region bytes 4088..4103, pages 0 AND 1 *)
+  (let '(rs', out) := run_xstep 0 [r] (XGm 8184 16 [] (OWrite 16 0)) in
+   o_effs out = [{| e_r := 0; e_woff := 4088; e_wn := 16; e_moff := 4088; e_mlen := 16 |}] /\
+   map r_dirty rs' = [[true; true]]) /\
+  (let '(rs', out) := run_xstep 0 [r] (XRoot 0 (RMapArr 6136 8 4) [DRefAt 1] ORefStore) in
+   o_effs out = [{| e_r := 0; e_woff := 6144; e_wn := 8; e_moff := 6144; e_mlen := 8 |}] /\
+   map r_dirty rs' = [[false; true]]).
+Proof.
+  cbv zeta. split; [|split].
+  - constructor; [|constructor]. unfold region_ok; cbn. split; [lia|]. split; [rewrite W64_val; lia|reflexivity].
+  - vm_compute. split; reflexivity.
+  - vm_compute. split; reflexivity.
+Qed.
+
+Print Assumptions C05_root_accessor_is_chain.
+Print Assumptions C05_root_bm_base_tracks.
+Print Assumptions C05_xstep_is_step.
+Print Assumptions C05_xhist_is_suite_model.
+Print Assumptions C05_xmodel_ok.
